@@ -253,7 +253,7 @@ func (p *passThrough) Header(headers []hpack.HeaderField, streamEnded bool, prio
 	return p.sink.Header(headers, streamEnded, priority)
 }
 func (p *passThrough) Priority(pr http2.PriorityParam) error { return p.sink.Priority(pr) }
-func (p *passThrough) RSTStream(c http2.ErrCode) error        { return p.sink.RSTStream(c) }
+func (p *passThrough) RSTStream(c http2.ErrCode) error       { return p.sink.RSTStream(c) }
 func (p *passThrough) PushPromise(id uint32, headers []hpack.HeaderField) error {
 	return p.sink.PushPromise(id, headers)
 }
